@@ -887,6 +887,11 @@ func c09Settle(r *sysRun, st *c09State, busy bool, final bool) {
 		if burstQueryChanged && !isEditAction(ev.Tag) {
 			st.listExact = false
 		}
+		if usesListCursor(ev.Tag) && st.cursorLoose {
+			// the model has lost track of the list cursor earlier in this burst (a jump label counted from
+			// an unknown scroll offset, a list that was trimmed ...): what this action selects is not known
+			st.exact = false
+		}
 		if strings.Contains(ev.Tag, "replace-query") && (burstQueryChanged || !cursorKnown || st.cursorLoose || !st.listExact) {
 			// which line is current depends on whether the list of the query just typed has arrived, or the
 			// model has lost track of the list cursor (it is re-read at the next comparison)
@@ -1036,6 +1041,17 @@ func c09Settle(r *sysRun, st *c09State, busy bool, final bool) {
 	if len(m.list) == 0 {
 		c.count("probe.empty_list", 1)
 	}
+}
+
+// usesListCursor: actions whose effect on the selection or the query depends on which result is current.
+func usesListCursor(tag string) bool {
+	for _, a := range strings.Split(tag, "+") {
+		switch a {
+		case "toggle", "toggle-down", "toggle-up", "toggle-in", "toggle-out", "select", "deselect", "replace-query":
+			return true
+		}
+	}
+	return false
 }
 
 func isEditAction(tag string) bool {
